@@ -1079,7 +1079,7 @@ def judge(c, impl, model):
             else:
                 sig = {"family": "unify", "pred": pred, "flag": flag, "model": mo, "problem": prob[0],
                        "t1": c["t1"][:120], "t2": c["t2"][:120], "shape": shape_key(c)}
-            out.append(("violation", sig, prob[1]))
+            out.append(("violation", sig, "configuration %s/%s: %s" % (pred, flag, prob[1])))
     return out, mo
 
 
@@ -1221,7 +1221,7 @@ def run(ctx):
             print("  model: %s" % mv)
             print("  impl : %s" % impl.get(c["id"]))
             for kind, sig, detail in probs:
-                print("  PROBLEM %s/%s: %s" % (sig.get("pred"), sig.get("flag"), detail))
+                print("  PROBLEM %s" % detail)
         if not probs:
             agree += 1
         for kind, sig, detail in probs:
